@@ -14,7 +14,7 @@ import (
 func init() {
 	register(&propDef{
 		ID:          "C18",
-		Explanation: "Configuration-literal audit and plaintext-dominance rules (R-TLS), decided on SSA for pkg/exporter and pkg/collector: every crypto/tls.Config and pion/dtls.Config object built there is reconstructed from its allocation and all stores to its fields (composite literal or later assignment). Client configs: RootCAs is a fresh x509 pool filled by AppendCertsFromPEM(<caller's CA data>) whose false result returns an error before the config is built; ServerName comes from the caller's config; no InsecureSkipVerify other than constant false; no VerifyPeerCertificate/VerifyConnection override; tls MinVersion is a constant >= TLS1.2; dtls requires the extended master secret; a client key pair comes from X509KeyPair with its error returned. TLS server configs: MinVersion >= TLS1.2; a config without ClientAuth is built only under caCert == nil; otherwise ClientAuth == RequireAndVerifyClientCert and ClientCAs is a pool filled from caCert with the result checked. No plaintext fallback: net.Dial is dominated by TLSClientConfig == nil, net.Listen / net.ListenUDP by !isEncrypted, and the tls/dtls Dial/Listen calls by the opposite edges; isEncrypted / caCert / serverCert / serverKey are written only while the process object is under construction. The oracle is the documented meaning of these fields in crypto/tls and pion/dtls; chain validation, expiry, SAN matching and version negotiation are performed by those libraries at run time and are not decided here. Later additions: every certificate appended to a verification pool comes from the configured CA data (AddCert refused).",
+		Explanation: "Configuration-literal audit and plaintext-dominance rules (R-TLS), decided on SSA for pkg/exporter and pkg/collector: every crypto/tls.Config and pion/dtls.Config object built there is reconstructed from its allocation and all stores to its fields (composite literal or later assignment). Client configs: RootCAs is a fresh x509 pool filled by AppendCertsFromPEM(<caller's CA data>) whose false result returns an error before the config is built; ServerName comes from the caller's config; no InsecureSkipVerify other than constant false; no VerifyPeerCertificate/VerifyConnection override; tls MinVersion is a constant >= TLS1.2; dtls requires the extended master secret; a client key pair comes from X509KeyPair with its error returned. TLS server configs: MinVersion >= TLS1.2; a config without ClientAuth is built only under caCert == nil; otherwise ClientAuth == RequireAndVerifyClientCert and ClientCAs is a pool filled from caCert with the result checked. No plaintext fallback: net.Dial is dominated by TLSClientConfig == nil, net.Listen / net.ListenUDP by !isEncrypted, and the tls/dtls Dial/Listen calls by the opposite edges; isEncrypted / caCert / serverCert / serverKey are written only while the process object is under construction. The oracle is the documented meaning of these fields in crypto/tls and pion/dtls; chain validation, expiry, SAN matching and version negotiation are performed by those libraries at run time and are not decided here. Later additions: every certificate appended to a verification pool comes from the configured CA data (AddCert refused). Round-seven addition: the library never writes through the caller's ExporterTLSClientConfig pointer (a server name defaulted in place would be used for the next collector the settings are reused for).",
 		Assume:      []string{"crypto/tls, crypto/x509 and pion/dtls implement their documented semantics for RootCAs, ServerName, MinVersion, ClientAuth, ClientCAs, InsecureSkipVerify, ExtendedMasterSecret"},
 		Run:         runC18,
 	})
